@@ -195,10 +195,12 @@ def c13(tier):
         raise vlib.ToolError("C13 comparator canaries fired %d/4" % d.n)
 
     # ---- 3a. regressions and known findings (fixed inputs)
-    fixed_inputs = [{"id": k, "src": s, "lean": True} for k, s in REGRESSIONS + REPRODUCERS]
+    import glob
+    regs = REGRESSIONS + [(os.path.basename(f), open(f).read()) for f in sorted(glob.glob(os.path.join(vlib.ROOT, "corpus", "c13_regressions", "*.ak")))]
+    fixed_inputs = [{"id": k, "src": s, "lean": True} for k, s in regs + REPRODUCERS]
     fo = run_modules(fixed_inputs)
     known_still = 0
-    for (k, s), o in zip(REGRESSIONS + REPRODUCERS, fo):
+    for (k, s), o in zip(regs + REPRODUCERS, fo):
         v, detail = ("timeout", "") if (o is None or "timeout" in o) else judge_module(o)
         is_known = k.startswith("fmt:")
         if v == "unparsed":
